@@ -43,8 +43,8 @@ def tset(xs):
 K3 = ["github", "batch", "all"]
 
 
-def consts(prs, maxc, maxpush, reviews, labels, ext, budget, kinds=K3):
-    return {"PRs": tset(prs), "MaxC": maxc, "MaxPush": maxpush, "Reviews": tset(reviews), "Labels": tset(labels),
+def consts(prs, maxc, maxpush, reviews, labels, ext, budget, kinds=K3, page=1):
+    return {"PageSize": page, "PRs": tset(prs), "MaxC": maxc, "MaxPush": maxpush, "Reviews": tset(reviews), "Labels": tset(labels),
             "ExtVals": tset(ext), "NotifyKinds": tset(kinds), "Budget": budget}
 
 
@@ -55,9 +55,9 @@ def spec_violation(ctx, v, cfg, what):
 
 
 # ---------------------------------------------------------------------------------------------------------
-def random_history(mod, rng, prs, maxc, maxpush, reviews, labels, ext, nsteps):
+def random_history(mod, rng, prs, maxc, maxpush, reviews, labels, ext, nsteps, page=1):
     """Drive the real objects with a random environment; returns the event list (B2)."""
-    impl = F.Impl(mod, prs, maxc)
+    impl = F.Impl(mod, prs, maxc, page)
     P = impl.P
     ev = []
 
@@ -142,23 +142,23 @@ def run(ctx):
     R4 = ["APPROVED", "REVIEW_REQUIRED", "CHANGES_REQUESTED", "API_NONE"]
 
     # ---- (1)+(2) exhaustive model checking, and replay of the whole graph on the real classes ---------------------
-    #          prs    maxc push reviews labels   ext                      budget kinds            replay
+    #          prs    maxc push reviews labels   ext                      budget kinds            replay page-size
     SF = ["success", "failure"]
     if ctx.quick:
-        configs = [((1,), 2, 1, R2, ["WIP"], ["failure"], 1, ["all"], True),
-                   ((1, 2), 2, 1, ["APPROVED"], [], ["failure"], 0, ["batch", "all"], True)]
+        configs = [((1,), 2, 1, R2, ["WIP"], ["failure"], 1, ["all"], True, 1),
+                   ((1, 2), 2, 1, ["APPROVED"], [], ["failure"], 0, ["batch", "all"], True, 1)]
     else:
-        configs = [((1,), 2, 1, R2, ["WIP"], SF, 1, K3, True),
-                   ((1, 2), 2, 1, R2, ["WIP"], SF, 0, K3, True),
-                   ((1,), 2, 1, R4, ["WIP", "prio:high"], SF + ["pending"], 2, K3, False),
-                   ((1,), 2, 1, R2, ["WIP"], SF, 3, K3, False),
-                   ((1, 2), 2, 1, R2, ["WIP"], SF, 1, K3, False),
-                   ((1, 2), 2, 1, ["APPROVED"], [], ["failure"], 2, ["batch", "all"], False)]
+        configs = [((1,), 2, 1, R2, ["WIP"], SF, 1, K3, True, 1),
+                   ((1, 2), 2, 1, R2, ["WIP"], SF, 0, K3, True, 2),
+                   ((1,), 2, 1, R4, ["WIP", "prio:high"], SF + ["pending"], 2, K3, False, 1),
+                   ((1,), 2, 1, R2, ["WIP"], SF, 3, K3, False, 1),
+                   ((1, 2), 2, 1, R2, ["WIP"], SF, 1, K3, False, 1),
+                   ((1, 2), 2, 1, ["APPROVED"], [], ["failure"], 2, ["batch", "all"], False, 1)]
     total_edges = total_walks = 0
     reached_two = False
-    for i, (prs, maxc, maxpush, reviews, labels, ext, budget, kinds, replay) in enumerate(configs):
-        cfg = consts(prs, maxc, maxpush, reviews, labels, ext, budget, kinds)
-        what = f"exhaustive CiMerge PRs={len(prs)} commits={maxc} target pushes={maxpush} human events={budget} (+arbitrary initial reviews/labels)"
+    for i, (prs, maxc, maxpush, reviews, labels, ext, budget, kinds, replay, page) in enumerate(configs):
+        cfg = consts(prs, maxc, maxpush, reviews, labels, ext, budget, kinds, page)
+        what = f"exhaustive CiMerge PRs={len(prs)} commits={maxc} target pushes={maxpush} page size={page} human events={budget} (+arbitrary initial reviews/labels)"
         (wd / f"MC{i}.cfg").write_text(tlc.mk_cfg(constants=cfg, invariants=INVS))
         res = tlc.run(wd, "CiMerge", f"MC{i}.cfg", workers=ctx.workers, coverage=True, dump=f"g{i}" if replay else None, timeout=3000)
         ctx.add_tlc(res, what)
@@ -171,11 +171,13 @@ def run(ctx):
             continue
         g = tlc.parse_dot(wd / f"g{i}.dot")
         reached_two = reached_two or any(s.get("nmerged", 0) >= 2 for s in g.nodes.values())
+        if page == 1 and budget > 0 and not any(s["ci"]["pg"]["cur"] > 0 for s in g.nodes.values()):
+            raise RuntimeError("vacuous: no status fetch with more than one page in the replayed graph")
 
         def apply_edge(impl, name, args, src, dst):
             F.apply_action(impl, name, args)
 
-        stats, mism = walk.replay_graph(g, lambda: F.Impl(mod, prs, maxc), apply_edge, lambda impl: impl.project(),
+        stats, mism = walk.replay_graph(g, lambda: F.Impl(mod, prs, maxc, page), apply_edge, lambda impl: impl.project(),
                                         view=F.view, rng=random.Random(ctx.seed))
         total_edges += stats["edges_covered"]
         total_walks += stats["walks"]
@@ -202,17 +204,18 @@ def run(ctx):
     ext = ["success", "failure", "pending"]
     prs = tuple(range(1, nprs + 1))
     rng = random.Random(ctx.seed * 7919 + 30)
-    lines, nmerges, nev, two = [], 0, 0, 0
+    lines, nmerges, nev, two, paged = [], 0, 0, 0, 0
     for _ in range(ntr):
         ev, merges = random_history(mod, rng, prs, maxc, maxpush, R4, labels, ext, nsteps)
         nmerges += len(merges)
         two += len(merges) >= 2
         nev += len(ev)
+        paged += sum(1 for a, b in zip(ev, ev[1:]) if a["a"] == b["a"] == "FetchStatus" and a["n"] == b["n"])
         lines.append(json.dumps({"ev": ev}))
     tf = wd / "traces.ndjson"
     tf.write_text("\n".join(lines) + "\n")
-    if nmerges == 0 or two == 0:
-        raise RuntimeError(f"vacuous random histories: {nmerges} merges, {two} histories with two merges")
+    if nmerges == 0 or two == 0 or paged == 0:
+        raise RuntimeError(f"vacuous random histories: {nmerges} merges, {two} histories with two merges, {paged} multi-page status fetches")
     cfg = consts(prs, maxc, maxpush, R4, labels, ext, 10 ** 6)
     (wd / "Trace.cfg").write_text(tlc.mk_cfg(spec="TraceSpec", constants=cfg, invariants=INVS, deadlock=True))
     tres = tlc.run(wd, "CiMergeTrace", "Trace.cfg", workers=max(1, min(4, ctx.workers)), env={"TRACE_FILE": tf}, timeout=3000)
@@ -231,7 +234,8 @@ def run(ctx):
         ctx.violation(sig, {"trace_id": tid, "position": l, "next_event": nxt, "spec_ci": tlaval.to_py(last.get("ci")),
                             "actions": [{k: x for k, x in e.items() if k != "post"} for e in evs[:l]][-40:]})
     ctx.sample({"kind": "impl-trace", "events": [{k: x for k, x in e.items() if k != "post"} for e in json.loads(lines[0])["ev"][:25]]})
-    ctx.cov["random_histories"] = {"n": ntr, "events": nev, "accepted_merges": nmerges, "histories_with_two_merges": two}
+    ctx.cov["random_histories"] = {"n": ntr, "events": nev, "accepted_merges": nmerges, "histories_with_two_merges": two,
+                                   "multi_page_status_fetches": paged}
 
     # ---- (4) bigger spec configurations by simulation (thorough tier only) -------------------------------------
     if not ctx.quick:
